@@ -25,6 +25,7 @@ ASSUMPTIONS = [
     "DirectedGraph.from_file reads with type 'digraph' (there is no class for 'dag'), so that route does not check the acyclicity test",
     "objects: only legal edits are made (add_edge of a pair the type allows, remove_edge of a present edge, update_vertex_number above the current count); 'the graph as it is at writing time' is the harness-side model; for random constructions (gnp, glrd, ... , pyramids and trees, whose structure is C15's subject) and after split_random_edges / add_random_missing_edges the model is read from has_edge on every pair of vertices",
     "streams: a stream given to readGraph / writeGraph / from_file is an instance of io.TextIOBase (the tree refuses other objects with ValueError) and the format is always named (a stream made with os.fdopen has a number as name); a stream that cannot seek implements the documented methods only (read, readline and what io.IOBase derives from them; write), read(size) and readline(size) may return fewer characters than asked, never more; streams on pipes are opened with universal newlines as sys.stdin is; named pipes and os.pipe() are those of the host (Linux)",
+    "line-end look-alikes (route 'linesep'): U+2028, U+2029, \\x0b, \\x0c, \\x1c-\\x1e, \\x85 and a bare \\r are ordinary characters of the line they are in; a line of a graph file ends at \\n (or \\r\\n) only, and at a bare \\r exactly when the stream translates it (open() with the default universal newlines: file names, handles opened by default, newline=''; not io.StringIO, not newline='\\n'); they are generated inside comment lines and graph names only, followed by a non-empty text. A file written by the harness with such a comment may be rejected (ValueError) but not read as another graph. A graph NAME with a bare \\r written by the tree and read back through a stream with universal newlines is left open (the tail of the name is a line of its own for every reader of such a stream: the unchanged tree rejects its own file with ValueError in that case; another graph is never accepted); names are otherwise single-line texts",
     "objects: a DOT text written by the tree is read back by the tree (pydot, ~50 ms) in a quarter of the quick cases and in every thorough enumerated case; otherwise by a harness-side reader of the plain dialect pydot writes (one statement per line, decimal identifiers, numbering by increasing identifier), falling back to the tree reader when the text is not in that dialect",
 ]
 
@@ -755,6 +756,225 @@ def run_no_format(case):
             f.close()
 
 
+# ---------------------------------------------------------------------------
+# (e) characters that SOME line splitters (str.splitlines) treat as line ends, inside one line of the file:
+# U+2028, U+2029, form feed, vertical tab, FS/GS/RS (\x1c-\x1e), NEL (\x85) and a bare carriage return.
+# For a text file only '\n' ends a line ('\r\n' too; and a bare '\r' where the stream is opened with universal
+# newlines, the default of open()): a comment line goes on until then, whatever it contains.
+#
+#   mode 'name'     the graph has a name  <words> SEP <tail> [SEP <tail> ...] ; the tree writes it and reads it back
+#   mode 'comment'  the harness writes the file, with a comment line  'c note SEP <tail>' ('#' for matrix) at the
+#                   head / after the size line / in the middle / at the end, and the tree reads it
+#   tails           words, a number (another size), an adjacency-like text that would add a NEW legal edge if it
+#                   were a line of its own, the literal list of the brief ('2 : 1 0', 'e 1 2', '0 1'), a comment
+#   via             how the text reaches the reader (and, mode 'name', how the tree wrote it)
+
+LS_SEPS = ['\u2028', '\u2029', '\x0c', '\x0b', '\x1c', '\x1d', '\x1e', '\x85', '\r']
+_LS_SET = frozenset(LS_SEPS)
+LS_TAILS = ['words', 'number', 'adj-new', 'adj-lit', 'comment']
+LS_WHERE = ['head', 'after-size', 'middle', 'end', 'end-no-newline']
+# via: (translating, i.e. the stream is opened with universal newlines so that a bare '\r' ends a line)
+LS_VIA = {'stringio': False, 'filename': True, 'filename-format': True, 'filehandle': True, 'handle-newline-lf': False,
+          'handle-newline-raw': True, 'from_file': True, 'spec': True}
+LS_VIAS = sorted(LS_VIA)
+
+
+def _ls_label(sep):
+    return 'sep:U+{:04X}'.format(ord(sep))
+
+
+def _ls_new_pair(gtype, want):
+    """A pair the type allows and the graph does not have (None when the graph is complete)."""
+    if gtype == 'bipartite':
+        P = _pairs(gtype, L=want['L'], Rr=want['R'])
+    else:
+        P = _pairs(gtype, n=want['n'])
+        if gtype == 'digraph':
+            P = [p for p in P if p[0] != p[1]]
+    have = set(tuple(e) for e in want['edges'])
+    for p in reversed(P):
+        if tuple(p) not in have:
+            return tuple(p)
+    return None
+
+
+def _ls_tail(kind, fmt, gtype, want):
+    order = R.desc_order(want)
+    if kind == 'words':
+        return 'page two of it'
+    if kind == 'comment':
+        return '# more' if fmt == 'matrix' else 'c more'
+    if kind == 'number':
+        return {'kthlist': str(order + 1), 'dimacs': 'p edge {} 0'.format(order + 1),
+                'matrix': '{} {}'.format(want.get('L', 0), want.get('R', 0) + 1)}[fmt]
+    if kind == 'adj-new':
+        p = _ls_new_pair(gtype, want)
+        if p is not None:
+            u, v = p
+            if fmt == 'kthlist':
+                return '{} : {} 0'.format(u, v + want['L']) if gtype == 'bipartite' else '{} : {} 0'.format(v, u)
+            if fmt == 'dimacs':
+                return 'e {} {}'.format(u, v)
+            return ' '.join(['1'] * max(1, want['R']))
+    # the literal text of an adjacency line
+    return {'kthlist': '2 : 1 0', 'dimacs': 'e 1 2', 'matrix': '0 1'}[fmt]
+
+
+def _ls_reference_text(text, translating):
+    """The text as a reader that ends lines at '\\n' only sees it: with universal newlines a bare '\\r' is a '\\n';
+    the other characters (and a '\\r' that is not translated) are ordinary characters of their line."""
+    if translating:
+        text = text.replace('\r\n', '\n').replace('\r', '\n')
+    return ''.join('_' if ch in _LS_SET else ch for ch in text)
+
+
+def _ls_put(path, text):
+    with open(path, 'wb') as f:
+        f.write(text.encode('utf-8'))
+
+
+def _ls_read(via, gtype, fmt, text, tmp):
+    """The graph the tree reads from `text` (exactly these characters, in a file or in a StringIO)."""
+    from cnfgen.graphs import readGraph
+    from cnfgen.clitools.graph_args import make_graph_from_spec
+    import cnfgen.clitools.msg as msg
+    if via == 'stringio':
+        return readGraph(io.StringIO(text), gtype, fmt)
+    p = os.path.join(tmp, 'lines.' + fmt if via in ('filename', 'from_file') else 'lines.txt')
+    _ls_put(p, text)
+    if via == 'filename':
+        return readGraph(p, gtype)
+    if via == 'filename-format':
+        return readGraph(p, gtype, fmt)
+    if via == 'from_file':
+        if gtype == 'dag':
+            return readGraph(p, gtype, fmt)
+        return _classes()[gtype].from_file(p)
+    if via == 'spec':
+        msg._prefix = ''
+        try:
+            return make_graph_from_spec(gtype, [fmt, p])
+        finally:
+            msg._prefix = ''
+    nl = {'filehandle': None, 'handle-newline-lf': '\n', 'handle-newline-raw': ''}[via]
+    with open(p, 'r', encoding='utf-8', newline=nl) as f:
+        return readGraph(f, gtype, fmt)
+
+
+def _ls_write(via, G, gtype, fmt, tmp):
+    """The text the tree writes for G (through a StringIO, a file it opens, or a file the harness opened)."""
+    from cnfgen.graphs import writeGraph
+    if via == 'stringio':
+        buf = io.StringIO()
+        writeGraph(G, buf, gtype, fmt)
+        return buf.getvalue()
+    p = os.path.join(tmp, 'written.' + fmt)
+    if via in ('filename', 'from_file'):
+        writeGraph(G, p, gtype)
+    elif via in ('filename-format', 'spec'):
+        p = os.path.join(tmp, 'written.txt')
+        writeGraph(G, p, gtype, fmt)
+    else:
+        with open(p, 'w', encoding='utf-8') as f:
+            writeGraph(G, f, gtype, fmt)
+    with open(p, 'rb') as f:
+        return f.read().decode('utf-8')
+
+
+def run_linesep(case):
+    from cnfgen.graphs import supported_graph_formats
+    gtype, fmt, mode, via = case['gtype'], case['fmt'], case['mode'], case['via']
+    seps, tails = case['seps'], case['tails']
+    if via not in LS_VIA or not seps or len(seps) != len(tails) or any(s not in _LS_SET for s in seps):
+        raise ValueError("malformed linesep case: {}".format(case))
+    if gtype == 'bipartite':
+        want = R.make_desc(gtype, L=case['L'], R=case['R'], edges=case['edges'])
+    else:
+        want = R.make_desc(gtype, n=case['n'], edges=case['edges'])
+    if fmt not in supported_graph_formats()[gtype]:
+        raise Violation("format {} is not offered for {} graphs".format(fmt, gtype), signature='rt-formats')
+    translating = LS_VIA[via]
+    tfmt = fmt if fmt in R.INHOUSE[gtype] else 'kthlist'
+    # a tail is one of the kinds of LS_TAILS (computed from the graph) or a literal text
+    inline = ''.join(s + (_ls_tail(t, tfmt, gtype, want) if t in LS_TAILS else t) for s, t in zip(seps, tails))
+    labels = ['route:linesep', 'linesep:' + mode, 'via:' + via, '{}/{}'.format(gtype, fmt)]
+    labels += [_ls_label(s) for s in seps] + ['tail:' + (t if t in LS_TAILS else 'text') for t in tails]
+    labels += _shape_labels(gtype, want)
+    if len(seps) > 1:
+        labels.append('several-separators')
+    nontrivial = len(want['edges']) >= 1 and R.desc_order(want) >= 3
+    cr_splits = translating and '\r' in seps
+    with _tmpdir() as tmp:
+        if mode == 'name':
+            name = case.get('head', 'the graph') + inline
+            G = _build(gtype, want, name)
+            what = "{} graph {} named {!r} written in {} format ({})".format(gtype, want, name, fmt, via)
+            try:
+                with _quiet():
+                    text = _ls_write(via, G, gtype, fmt, tmp)
+            except ValueError as e:
+                raise Violation("{}: refused with ValueError({})".format(what, e), signature='linesep-write-rejected')
+            if fmt in R.INHOUSE[gtype]:
+                # the text written: the name sits on ONE comment line (a reader that ends lines at '\n' only)
+                ref = R.ref_read(fmt, gtype, _ls_reference_text(text, False))
+                if ref.status == 'invalid' or ref.graph != want:
+                    raise Violation("{}: the text written, {!r}, is not the graph for the reference reader ({} {})".format(
+                        what, text, ref.status, ref.graph if ref.graph is not None else ref.why),
+                        signature='linesep-written-text')
+            try:
+                with _quiet():
+                    H = _ls_read(via, gtype, fmt, text, tmp)
+            except ValueError as e:
+                if cr_splits:
+                    # a bare '\r' in the name and a stream with universal newlines: the rest of the name is a line
+                    # of its own for every reader of that stream (left open, see ASSUMPTIONS); never another graph
+                    return Outcome(labels=labels + ['cr-in-name-own-file-rejected'], rejected=True, nontrivial=nontrivial)
+                raise Violation("{}: the file the tree wrote, {!r}, is rejected when read back: ValueError({})".format(
+                    what, text, e), signature='linesep-own-file-rejected')
+            _check_same(gtype, want, H, what + ', text {!r} read back'.format(text))
+            return Outcome(labels=labels + ['own-file-read-back'], nontrivial=nontrivial)
+        # ---- mode 'comment': a file written by the harness
+        if fmt not in R.INHOUSE[gtype]:
+            raise ValueError("comment mode is for the in-house formats: {}".format(case))
+        base = R.write_inhouse(fmt, gtype, want, case.get('style', 0) & ~16)
+        lines = base.split('\n')[:-1]
+        size_at = 0
+        while size_at < len(lines) and lines[size_at][:1] in ('c', '#'):
+            size_at += 1
+        where = case['where']
+        at = {'head': 0, 'after-size': size_at + 1, 'middle': (size_at + 1 + len(lines) + 1) // 2,
+              'end': len(lines), 'end-no-newline': len(lines)}[where]
+        comment = ('# note' if fmt == 'matrix' else 'c note') + inline
+        lines.insert(at, comment)
+        text = '\n'.join(lines) + ('' if where == 'end-no-newline' else '\n')
+        ref = R.ref_read(fmt, gtype, _ls_reference_text(text, translating))
+        what = "{} text {!r} read as {} ({})".format(fmt, text, gtype, via)
+        labels += ['where:' + where, 'ref:' + ref.status]
+        try:
+            with _quiet():
+                H = _ls_read(via, gtype, fmt, text, tmp)
+        except ValueError:
+            # rejected: allowed, the graph is not changed silently
+            return Outcome(labels=labels + ['comment-rejected'], rejected=True, nontrivial=nontrivial)
+        got = R.describe(H, gtype)
+        if ref.status == 'invalid':
+            raise Violation("{}: accepted as {} although, with lines ending at '\\n'{} only, the text is invalid ({})".format(
+                what, got, " (and at a bare '\\r', universal newlines)" if translating else '', ref.why),
+                signature='linesep-accepted-invalid')
+        if not ref.accepts(got):
+            raise Violation("{}: read as {} but, with lines ending at '\\n'{} only, the text is the graph {}: a character "
+                            "inside a comment line was taken for a line end".format(
+                                what, got, " (and at a bare '\\r', universal newlines)" if translating else '', ref.graph),
+                            signature='linesep-silent-change')
+        if gtype in ('digraph', 'dag') and H.is_dag() != R.upward(got):
+            raise Violation("{}: is_dag() is {} for {}".format(what, H.is_dag(), got), signature='rt-isdag')
+        if ref.graph == want:
+            labels.append('comment-ignored')
+        else:
+            labels.append('cr-ends-comment-line')
+        return Outcome(labels=labels + ['comment-accepted'], nontrivial=nontrivial)
+
+
 def run_roundtrip(case):
     from cnfgen.graphs import supported_graph_formats
     if case['route'] == 'no-format':
@@ -763,6 +983,8 @@ def run_roundtrip(case):
         return run_stream(case)
     if case['route'] == 'subprocess':
         return run_stream_subprocess(case)
+    if case['route'] == 'linesep':
+        return run_linesep(case)
     gtype, fmt, route = case['gtype'], case['fmt'], case['route']
     name = case.get('name')
     if gtype == 'bipartite':
@@ -850,8 +1072,12 @@ def strat_graph(draw, gtype):
     return c
 
 
-_ROUTE_ST = st.sampled_from(ROUTES + ['stream', 'stream', 'stream'])
+_ROUTE_ST = st.sampled_from(ROUTES + ['stream', 'stream', 'stream', 'linesep', 'linesep'])
 _STREAM_X = st.integers(0, 10 ** 6)
+_LS_X = st.integers(0, 10 ** 9)
+_LS_TEXT = st.text(alphabet=NAME_ALPHABET, min_size=1, max_size=12)
+_LS_TAIL = st.sampled_from(LS_TAILS) | _LS_TEXT.map(lambda t: 'x' + t) | st.sampled_from(LS_TAILS)
+_LS_PARTS = st.lists(st.tuples(st.sampled_from(LS_SEPS), _LS_TAIL), min_size=1, max_size=3)
 
 
 @st.composite
@@ -861,6 +1087,30 @@ def strat_roundtrip(draw):
     c['fmt'] = draw(st.sampled_from(FORMATS[gtype]))
     c['route'] = draw(_ROUTE_ST)
     c['name'] = draw(st.sampled_from(FIXED_NAMES) | st.text(alphabet=NAME_ALPHABET, max_size=20))
+    if c['route'] == 'linesep':
+        # a name / a comment line with 1..3 of the characters, each followed by a text
+        x = draw(_LS_X)
+        parts = draw(_LS_PARTS)
+        del c['name']
+        c['mode'] = 'name' if x % 2 else 'comment'
+        x //= 2
+        fmts = list(R.INHOUSE[gtype])
+        if c['mode'] == 'name':
+            fmts = [f for f in fmts if f != 'matrix'] + (['gml'] if gtype == 'bipartite' else [])
+        c['fmt'] = fmts[x % len(fmts)]
+        x //= 4
+        c['via'] = LS_VIAS[x % len(LS_VIAS)]
+        x //= len(LS_VIAS)
+        c['seps'] = [p[0] for p in parts]
+        c['tails'] = [p[1] for p in parts]
+        if c['fmt'] == 'gml' and '\r' in c['seps']:
+            c['fmt'] = 'kthlist'
+        if c['mode'] == 'name':
+            c['head'] = draw(_LS_TEXT)
+        else:
+            c['where'] = LS_WHERE[x % len(LS_WHERE)]
+            c['style'] = (x // 8) % 64 & (1 | 2 | 8 | 32 | (64 if x % 3 else 4))
+        return c
     if c['route'] == 'stream':
         x = draw(_STREAM_X)
         if c['fmt'] == 'dot' and x % 4:
@@ -875,6 +1125,47 @@ def strat_roundtrip(draw):
         x //= len(apis)
         c['chunk'] = 1 + x % 9
     return c
+
+
+def enum_linesep(tier):
+    """Quick: every (type, in-house format) x separator x tail, the position of the comment and the way the text
+    reaches the reader in rotation, on one graph with more than ten vertices and one small graph; thorough: the
+    full product on three graphs."""
+    k = j = 0
+    for gtype in R.TYPES:
+        graphs = _STREAM_GRAPHS[gtype][:3] if tier == 'thorough' else _STREAM_GRAPHS[gtype][:2]
+        for gi, g in enumerate(graphs):
+            # mode 'name': the formats that store the name (no name in a matrix file; gml stores it for bipartite graphs)
+            for fmt in [f for f in R.INHOUSE[gtype] if f != 'matrix'] + (['gml'] if gtype == 'bipartite' else []):
+                for sep in LS_SEPS:
+                    for tail in LS_TAILS:
+                        j += 1
+                        for vi, via in enumerate(LS_VIAS):
+                            k += 1
+                            if tier == 'quick' and (j + gi) % len(LS_VIAS) != vi:
+                                continue
+                            if fmt == 'gml' and (tier == 'quick' and k % 3 or sep == '\r'):
+                                continue
+                            c = dict(g)
+                            c.update(gtype=gtype, fmt=fmt, route='linesep', mode='name', via=via, seps=[sep], tails=[tail])
+                            if k % 5 == 0:      # two separators in the same name
+                                c.update(seps=[sep, LS_SEPS[k % len(LS_SEPS)]], tails=[tail, LS_TAILS[k % len(LS_TAILS)]])
+                            yield c
+            for fmt in R.INHOUSE[gtype]:
+                for sep in LS_SEPS:
+                    for tail in LS_TAILS:
+                        for wi, where in enumerate(LS_WHERE):
+                            j += 1
+                            for vi, via in enumerate(LS_VIAS):
+                                k += 1
+                                if tier == 'quick' and ((j + gi) % len(LS_VIAS) != vi or gi and (j + wi) % 2):
+                                    continue
+                                c = dict(g)
+                                c.update(gtype=gtype, fmt=fmt, route='linesep', mode='comment', via=via, seps=[sep],
+                                         tails=[tail], where=where, style=(0, 8, 32, 1, 2)[k % 5] if fmt != 'dimacs' else (0, 8, 1)[k % 3])
+                                if k % 7 == 0:
+                                    c.update(seps=[sep, LS_SEPS[k % len(LS_SEPS)]], tails=[tail, LS_TAILS[k % len(LS_TAILS)]])
+                                yield c
 
 
 def enum_roundtrip(tier):
@@ -900,6 +1191,8 @@ def enum_roundtrip(tier):
                     yield {'gtype': 'bipartite', 'L': L, 'R': Rr,
                            'edges': [p for i, p in enumerate(P) if (mask >> i) & 1]}
     for c in enum_streams(tier):
+        yield c
+    for c in enum_linesep(tier):
         yield c
     for gtype in ('simple', 'dag', 'digraph', 'bipartite'):
         for kind in ('stringio', 'named-none', 'named-int', 'pipe'):
@@ -1277,13 +1570,31 @@ SUBCHECKS = [
                   "thorough one): a real child process with pipes as standard input and output: readGraph(sys.stdin) + writeGraph(sys.stdout) "
                   "for every graph type, `cnfgen -q peb kthlist -`, `kthlist2pebbling -q`, `cnfgen -q domset 3 <format> -`; oracle: the text that comes "
                   "back is the graph for the reference reader / the formula is the harness-computed pebbling formula / equals the formula the "
-                  "tool builds in-process from the same text in a regular file",
+                  "tool builds in-process from the same text in a regular file. "
+                  "LINE-END LOOK-ALIKES (route 'linesep', 2 of 10 generated cases + an enumerated sweep: every graph type x in-house format x "
+                  "character x kind of tail, positions and ways of reading in rotation in the quick tier, the full product in the thorough one): "
+                  "one of U+2028, U+2029, form feed, vertical tab, \\x1c, \\x1d, \\x1e, NEL \\x85, bare \\r (1..3 of them) inside ONE line, each followed "
+                  "by a text (words / a number or header that states another size / an adjacency-like text that would add a new legal edge if "
+                  "it were a line, e.g. '12 : 11 0', 'e 3 4', a matrix row / the literal '2 : 1 0', 'e 1 2', '0 1' / a comment start / generated text). "
+                  "Mode 'name': the graph (fixed graphs with 0..12 vertices or generated ones with 0..14) gets such a name and is written by the tree "
+                  "in kthlist, dimacs (and gml for bipartite graphs, whose name is stored) through StringIO / a file name (format from the extension "
+                  "or named) / a handle the harness opened, and read back through StringIO / file name / file name + format / handle with default, "
+                  "'\\n' or '' newline mode / <class>.from_file / the graph argument `<format> <file>`: the written text is the graph for the reference "
+                  "reader (lines end at \\n only) and the graph read back is the original one (a rejection is a violation, except a bare \\r "
+                  "in the name read through universal newlines). Mode 'comment': a kthlist / dimacs / matrix file written by the harness's writers "
+                  "(several layouts) with a comment line 'c note<char><tail>' ('#' in a matrix) at the head, after the size line, in the middle, at the "
+                  "end with or without final newline, read through the same eight ways: the graph returned must be the one the reference reader "
+                  "gets when lines end at \\n (and at a bare \\r exactly when the stream has universal newlines) only, or the text is rejected with "
+                  "ValueError; a text invalid under that reading must be rejected",
              required_labels=_PAIRS + ['route:' + r for r in ROUTES] + ['>=10-vertices', 'isolated', 'empty-side',
                                                                        'null-graph', 'has-back-edge', 'self-loop',
                                                                        'named', 'last-vertex-isolated', 'written-text-valid',
                                                                        'route:stream', 'route:subprocess', 'route:no-format', 'nameless:pipe', 'tool:readwrite',
                                                                        'tool:cnfgen-peb', 'tool:kthlist2pebbling', 'tool:cnfgen-domset'] +
-             ['rstream:' + k for k in RKINDS] + ['wstream:' + k for k in WKINDS] + ['rapi:' + a for a in RAPIS]),
+             ['rstream:' + k for k in RKINDS] + ['wstream:' + k for k in WKINDS] + ['rapi:' + a for a in RAPIS] +
+             ['route:linesep', 'linesep:name', 'linesep:comment', 'own-file-read-back', 'comment-accepted', 'comment-ignored',
+              'cr-ends-comment-line', 'several-separators'] + [_ls_label(s) for s in LS_SEPS] + ['via:' + v for v in LS_VIAS] +
+             ['tail:' + t for t in LS_TAILS] + ['where:' + w for w in LS_WHERE]),
     SubCheck('readers_text', run_text, strategy=strat_text, enumerate_cases=enum_text,
              quick=20000, thorough=400000,
              rule="texts for kthlist (simple, digraph, dag, bipartite), dimacs (simple, digraph, dag) and matrix: written by the reference writers in several layouts from random graphs (0..14 vertices), optionally with an edge the type forbids, then 0..3 mutations (blank / whitespace / comment lines anywhere, truncation, deleted / duplicated / swapped lines, changed / deleted / inserted numbers, deleted / inserted characters, CR LF, int() spellings, indentation, continuation lines, unknown line types) or short random texts over the format's alphabet, plus the snippets of tests/ and of the documentation; oracle: independent reference reader (valid -> exactly that graph, invalid -> ValueError, gray -> either), never an exception other than ValueError, a text read as 'dag' is accepted only if all edges go upward; a quarter of the texts (and every snippet once more) reach the tree through a stream that cannot seek (the six kinds of source of the roundtrip sub-check) at readGraph / from_file / the graph argument `<format> -`, same oracle; non-trivial: the text has a size line and at least one edge token. Thorough tier only: one atheris (libFuzzer, coverage of cnfgen.graphs) campaign per in-house reader and graph type, from an empty corpus and from a seed corpus (snippets of tests/ + reference-writer output), -runs={} each, max_len 160, in a sub-process with a fresh corpus directory under out/fuzz, the same oracle applied to every input inside the target".format(FUZZ_RUNS),
